@@ -302,8 +302,42 @@ def conds_Mux_loadState : List String := [
    "return s"
   ]
 
+def stmts_Mux_loadState : List String := [
+   "{",
+   "s, _ := m.state.Load().(*state)",
+   "return s",
+   "}"
+  ]
+
 def conds_Mux_storeState : List String := [
    "func (*Mux) storeState(s *state)"
+  ]
+
+def stmts_Mux_storeState : List String := [
+   "{",
+   "m.state.Store(s)",
+   "}"
+  ]
+
+def conds_state_pickMethodHandler : List String := [
+   "func (*state) pickMethodHandler(name string) (*handler, error)",
+   "if s != nil",
+   "if len(hds) > 0",
+   "return hd, nil",
+   "return nil, status.Errorf(codes.Unimplemented, \"method %s not implemented\", name)"
+  ]
+
+def stmts_state_pickMethodHandler : List String := [
+   "{",
+   "if s != nil {",
+   "hds := s.handlers[name]",
+   "if len(hds) > 0 {",
+   "hd := hds[rand.Intn(len(hds))]",
+   "return hd, nil",
+   "}",
+   "}",
+   "return nil, status.Errorf(codes.Unimplemented, \"method %s not implemented\", name)",
+   "}"
   ]
 
 end Larking.Expected.C12
